@@ -5,7 +5,7 @@
    Events (one JSON object per line):
      Scenario  id, class, cfg (the scenario record of Stmt), state (real projection of the fresh session)
      Call      op, p, node, upd, g, cp, j, err, state, ops     after an API call of Statement returned
-               (op = Evict | Pipeline | Allocate | Unevict | Scratch | Checkpoint | Rollback | Discard | Convert |
+               (op = Evict | Pipeline | Allocate | Unevict | Checkpoint | Rollback | Discard | Convert |
                 CommitBegin (logged by the commit-begin hook) | CommitEnd)
      Cache     c, p, node, ok                                   a Cache.Bind / Evict / TaskPipelined call made by Commit
      H         h, p, state                                      a hook firing inside a multi-step call (undo steps)
@@ -49,9 +49,9 @@ RPods(st)   == [p \in DOMAIN st.pods |-> RPod(st.pods[p])]
 RNodes(st)  == [n \in DOMAIN st.nodes |-> RNode(st.nodes[n])]
 RJobs(st)   == [j \in DOMAIN st.jobs |-> JobCounters(st.jobs[j])]
 RQueues(st) == [q \in DOMAIN st.queues |-> QueueCounters(st.queues[q])]
-\* the projection compared by C13 on real states: everything logged, scratch GPU groups normalised (Stmt!Scratch)
+\* the projection compared by C13 on real states: everything logged, GPU groups of Pending pods normalised
 RNorm(st) == [st EXCEPT !.pods = [p \in DOMAIN st.pods |->
-                 [st.pods[p] EXCEPT !.groups = IF Scratch(st.pods[p].st, st.pods[p].virt = 1) THEN <<>> ELSE @]]]
+                 [st.pods[p] EXCEPT !.groups = IF st.pods[p].st = "Pending" THEN <<>> ELSE @]]]
 ROps(o) == [i \in 1..Len(o) |-> [k |-> o[i].k, p |-> o[i].p, tgt |-> o[i].tgt + 1, valid |-> (o[i].valid = 1)]]
 
 SetCp(f, k, st) == [x \in DOMAIN f \cup {k} |-> IF x = k THEN st ELSE f[x]]
@@ -95,9 +95,6 @@ TraceCall ==
           [] e.op = "Unevict" ->
                /\ SetS(UnevictEarliest(Cur, e.p)) /\ cps' = SetCp(cps, L, l)
                /\ UNCHANGED <<emitted, plan, phase, ci, conv, rbOK, dcOK, pli, rem, rdone, dmsg>>
-          [] e.op = "Scratch" ->       \* the caller overwrote the GPU groups of a pod it is trying to place
-               /\ pod' = [pod EXCEPT ![e.p].groups = e.g] /\ cps' = SetCp(cps, L, l)
-               /\ UNCHANGED <<node, job, queue, ops, emitted, plan, phase, ci, conv, rbOK, dcOK, pli, rem, rdone, dmsg>>
           [] e.op = "Checkpoint" ->
                /\ cps' = SetCp(cps, e.cp, l)
                /\ dmsg' = IF dmsg = "" /\ e.cp # L THEN "Checkpoint() differs from the logged op-log length" ELSE dmsg
@@ -207,7 +204,7 @@ TraceSpec == TraceInit /\ [][TraceNext]_tvars
 \* after a property violation (of either family) the real code has left the specified behaviour: the model's
 \* predictions are then not comparable any more (no drift verdict for the rest of the scenario)
 Clean == sync /\ ~taint /\ AllC
-D_Pods   == Clean => [p \in Pods |-> NormPod(RPods(real)[p])] = [p \in Pods |-> NormPod(pod[p])]
+D_Pods   == Clean => RPods(real) = pod
 D_Nodes  == Clean => RNodes(real) = node
 D_Jobs   == Clean => RJobs(real) = [j \in Jobs |-> JobCounters(job[j])]
 D_Queues == Clean => RQueues(real) = [q \in Queues |-> QueueCounters(queue[q])]
